@@ -30,6 +30,7 @@ func checkC14(c *Check) {
 	c14StoredHash(c)
 	c14WholePassword(c)
 	c14Surroundings(c)
+	c14SchemeSiblings(c)
 	c14Providers(c)
 	c14Mapping(c)
 	c14Gate(c)
@@ -1052,5 +1053,223 @@ func c14Surroundings(c *Check) {
 			return true
 		})
 		c.Hold("R1b", "NormalizeAuto:precis", fi.Decl.Pos(), msg == "" && nret > 0, msg)
+	}
+}
+
+
+// R3f: a hash scheme is a pair of functions registered under one tag – compute (at enrolment) and verify (at login).
+// The byte string each of them hands to the key-derivation function must be produced from the password in the same
+// way. A preparation step (a PRECIS profile, a trim, a case fold) added to one sibling and not the other makes the
+// password just set unverifiable for every input the step changes, while the tests – ASCII passwords – see nothing.
+// Decided per tag: the set of functions applied to an expression that depends on the password parameter (conversions,
+// append and the crypto packages themselves excluded) is the same in compute and verify.
+func c14SchemeSiblings(c *Check) {
+	c.Rule("R3f", "pass_table: for every hash tag, compute and verify apply the same functions to the password on its way to the key-derivation function (siblings registered under one tag agree)", 3)
+	p := c.P
+	pk := p.Pkg(passTableRel)
+	if pk == nil {
+		c.Fail("R3f", "package", token.NoPos, "anchor unresolved")
+		return
+	}
+	info := pk.TypesInfo
+	// registrations: map literal elements and index assignments of HashCompute / HashVerify
+	reg := map[string]map[string]*types.Func{"HashCompute": {}, "HashVerify": {}}
+	record := func(table string, key ast.Expr, val ast.Expr) {
+		if reg[table] == nil {
+			return
+		}
+		k, ok := constString(info, key)
+		if !ok {
+			return
+		}
+		if fn, ok := objOf(info, val).(*types.Func); ok {
+			reg[table][k] = fn
+		}
+	}
+	for _, file := range pk.Syntax {
+		ast.Inspect(file, func(x ast.Node) bool {
+			switch n := x.(type) {
+			case *ast.ValueSpec:
+				for i, nm := range n.Names {
+					if i < len(n.Values) {
+						if cl, ok := ast.Unparen(n.Values[i]).(*ast.CompositeLit); ok {
+							for _, el := range cl.Elts {
+								if kv, ok := el.(*ast.KeyValueExpr); ok {
+									record(nm.Name, kv.Key, kv.Value)
+								}
+							}
+						}
+					}
+				}
+			case *ast.AssignStmt:
+				for i, l := range n.Lhs {
+					if ix, ok := ast.Unparen(l).(*ast.IndexExpr); ok && i < len(n.Rhs) {
+						if o := objOf(info, ix.X); o != nil {
+							record(o.Name(), ix.Index, n.Rhs[i])
+						}
+					}
+				}
+			}
+			return true
+		})
+	}
+	transformers := func(fn *types.Func) (map[string]bool, bool) {
+		fi := p.DeclOf(fn)
+		if fi == nil || fi.Decl.Body == nil {
+			return nil, false
+		}
+		c.SawFunc(fi.Name())
+		sig := fn.Type().(*types.Signature)
+		// the password parameter: the string parameter that is not the stored hash (compute: the only string; verify: the first)
+		var pass types.Object
+		for i := 0; i < sig.Params().Len(); i++ {
+			if isStringType(sig.Params().At(i).Type()) {
+				pass = sig.Params().At(i)
+				break
+			}
+		}
+		if pass == nil {
+			return nil, false
+		}
+		dep := copyClosure(info, fi.Decl.Body, pass)
+		dep[pass] = true
+		isSink := func(call *ast.CallExpr) bool {
+			fnc := callee(info, call)
+			if fnc == nil || fnc.Pkg() == nil {
+				return false
+			}
+			pp := fnc.Pkg().Path()
+			return strings.HasPrefix(pp, "golang.org/x/crypto/") || strings.HasPrefix(pp, "crypto/")
+		}
+		// e mentions o other than inside the arguments of a digest / KDF call (what comes out of those is the hash,
+		// not the password any more)
+		mentionsPw := func(e ast.Node, o types.Object) bool {
+			found := false
+			ast.Inspect(e, func(x ast.Node) bool {
+				if found {
+					return false
+				}
+				if call, ok := x.(*ast.CallExpr); ok && isSink(call) {
+					return false
+				}
+				if id, ok := x.(*ast.Ident); ok && info.Uses[id] == o {
+					found = true
+				}
+				return true
+			})
+			return found
+		}
+		// locals computed from the password carry it on
+		for changed := true; changed; {
+			changed = false
+			ast.Inspect(fi.Decl.Body, func(x ast.Node) bool {
+				as, ok := x.(*ast.AssignStmt)
+				if !ok {
+					return true
+				}
+				for i, l := range as.Lhs {
+					lo := objOf(info, l)
+					if lo == nil || dep[lo] {
+						continue
+					}
+					var rhs ast.Expr
+					if len(as.Rhs) == len(as.Lhs) {
+						rhs = as.Rhs[i]
+					} else if len(as.Rhs) == 1 {
+						rhs = as.Rhs[0]
+					}
+					if rhs == nil {
+						continue
+					}
+					for o := range dep {
+						if mentionsPw(rhs, o) {
+							if v, isVar := lo.(*types.Var); isVar && !isErrorType(v.Type()) {
+								dep[lo] = true
+								changed = true
+							}
+							break
+						}
+					}
+				}
+				return true
+			})
+		}
+		out := map[string]bool{}
+		ast.Inspect(fi.Decl.Body, func(x ast.Node) bool {
+			call, ok := x.(*ast.CallExpr)
+			if !ok {
+				return true
+			}
+			if tv, has := info.Types[call.Fun]; has && tv.IsType() {
+				return true // conversion
+			}
+			uses := false
+			for _, a := range call.Args {
+				for o := range dep {
+					if mentionsPw(a, o) {
+						uses = true
+					}
+				}
+			}
+			if !uses {
+				return true
+			}
+			if id, isID := call.Fun.(*ast.Ident); isID {
+				if _, isBuiltin := info.Uses[id].(*types.Builtin); isBuiltin {
+					return true
+				}
+			}
+			fnc := callee(info, call)
+			if fnc == nil {
+				out["(dynamic call "+exprStr(call.Fun)+")"] = true
+				return true
+			}
+			if fnc.Pkg() != nil {
+				pp := fnc.Pkg().Path()
+				// where the password ends up (KDF / digest / comparison / encoding of the result) is the scheme itself
+				if strings.HasPrefix(pp, "golang.org/x/crypto/") || strings.HasPrefix(pp, "crypto/") || strings.HasPrefix(pp, "encoding/") || pp == "fmt" || pp == "strconv" {
+					return true
+				}
+			}
+			out[qname(fnc)] = true
+			return true
+		})
+		return out, true
+	}
+	n := 0
+	var tags []string
+	for k := range reg["HashCompute"] {
+		tags = append(tags, k)
+	}
+	sort.Strings(tags)
+	for _, tag := range tags {
+		cf, vf := reg["HashCompute"][tag], reg["HashVerify"][tag]
+		if vf == nil {
+			c.Hold("R3f", "scheme:"+tag, cf.Pos(), false, "hash tag "+tag+" can be computed but not verified")
+			continue
+		}
+		ct, ok1 := transformers(cf)
+		vt, ok2 := transformers(vf)
+		if !ok1 || !ok2 {
+			c.Fail("R3f", "scheme:"+tag, cf.Pos(), "undecided: compute / verify of the scheme not resolved to functions with a password parameter")
+			continue
+		}
+		n++
+		var only []string
+		for f := range ct {
+			if !vt[f] {
+				only = append(only, f+" (compute only)")
+			}
+		}
+		for f := range vt {
+			if !ct[f] {
+				only = append(only, f+" (verify only)")
+			}
+		}
+		sort.Strings(only)
+		c.Hold("R3f", "scheme:"+tag, cf.Pos(), len(only) == 0, "compute and verify of hash tag "+tag+" prepare the password differently: "+strings.Join(only, ", ")+" – for every password the step changes (non-NFC input, non-ASCII spaces, …) the hash stored at enrolment is not the one computed at login: the account cannot be opened with its own password")
+	}
+	if n < 3 {
+		c.Fail("R3f", "schemes", token.NoPos, "undecided: fewer than three hash schemes with both siblings found")
 	}
 }
